@@ -27,7 +27,7 @@ CONSTS_SIMPLE = ["0", "1", "2", "3", "7", "255", "256", "65535", "65536", "-1", 
                  "None", "1.5", "0.0", "-0.0", "1e300", "2**70", "'a'", "b'a'", "''", "b''",
                  "'\\u00e9'", "1j", "-0j", "...", "(1, 2)", "(1.0, True)", "((), (0.0, -0.0))",
                  "1e999", "-1e999", "(1e999 - 1e999)", "'\\ud800'", "(None, ('x', b'y'))",
-                 "10**40", "-2**63", "0.1", "'docstringlike'"]
+                 "10**40", "-2**63", "0.1", "'docstringlike'", "1e999j", "-1e999j", "(1e999j * 0)", "(2 + 1e999j)"]
 
 
 class Gen(object):
